@@ -566,7 +566,8 @@ impl M {
                 let p = self.proj();
                 let name = res_name(&r);
                 self.last_res = name;
-                out.emit(json!({"ev": "Run", "run": self.run, "kind": kind, "arg": arg, "envs": envs, "nsteps": polls, "res": name, "proj": p}));
+                // (TLC integers are 32-bit: a limit that no bounded run can reach is logged as 1 000 000)
+                out.emit(json!({"ev": "Run", "run": self.run, "kind": kind, "arg": arg.min(1_000_000), "envs": envs, "nsteps": polls, "res": name, "proj": p}));
                 name
             }
         }
